@@ -21,7 +21,8 @@ ASSUMPTIONS = ["math/rand: each rand.Intn(b) is uniform on [0,b) and successive 
                "the product space of choice vectors); Intn/Int31n/Perm transcribed in Model/Rand.v"]
 LEVEL_TEXT = ("counting theorems in coq/Properties/C20.v over all choice vectors about Model/Sampling.v and Model/TreeGen.v; the "
               "transcribed loops are tied to the binary by exact per-seed prediction from the recorded random stream")
-LEVEL_NOTE = ""
+LEVEL_NOTE = ("the reservoir index of cmd/sample.go and cmd/prune.go was false of the code as first read (rand.Intn(i)); fixed in /repo "
+              "(202a79d, 4c6febb), the model constant code_bound follows the code; the rooted uniform generator stays an open finding")
 
 _built = {}
 
@@ -315,11 +316,6 @@ def _extra_name(c):
     return ((c.get("meta") or {}).get("extra") or "")
 
 MATCHERS = {
-    # cmd/sample.go: rand.Intn(totaltrees) instead of rand.Intn(totaltrees+1)
-    "C20-sample-reservoir-index": lambda c: _extra_name(c).startswith("sample-noreplace")
-        or (_case_op(c).get("op") == "enum-sample" and _case_op(c).get("replace") == "F"),
-    # cmd/prune.go randomTips: rand.Intn(i) instead of rand.Intn(i+1)
-    "C20-prune-reservoir-index": lambda c: _extra_name(c).startswith("prune-random") or _case_op(c).get("op") == "enum-prune",
     # tree/treegen.go RandomUniformBinaryTree(rooted): never inserts above the root
     "C20-uniform-rooted-root-branch": lambda c: _extra_name(c).startswith("uniformtree-rooted")
         or (_case_op(c).get("op") == "enum-uniform" and _case_op(c).get("rooted") == "T"),
